@@ -34,6 +34,9 @@ def run(rep):
     import c05
     rep.guard(c05.e4, rep, w)     # a key must not change after it was inserted: tuples, ranges and strings are never written after construction (a copied-and-patched tuple carries its source's state, e.g. a remembered hash)
     rep.guard(c05.e12, rep, w)    # ... and carry no state a reader changes (a remembered hash that a copy of the tuple inherits)
+    rep.guard(h12, rep, w)
+    rep.guard(h13, rep, w)
+    rep.guard(h10, rep, w)
 
 
 def discr_switches(f, adt_path):
@@ -335,3 +338,118 @@ def h9(rep, w, prop='C12'):
                 r.check(bool(roots) and not stale, '%s builds a %s from a fresh allocation' % (np_.rsplit('::', 1)[-1], rr['v']),
                         '%s answers with a %s that was not allocated in this call (it comes from %s): every caller gets the same object, so a list one caller edits '
                         'is the list the next caller receives' % (np_, rr['v'], stale[:2]), f.loc(s_.get('sp')))
+
+
+def _eq_by_content(w):
+    """kinds whose same-kind arm in PartialEq for Value compares what the handles point to (not the handles themselves)"""
+    ef = w.require_fn('yarel::<value::Value as std::cmp::PartialEq>::eq', 'C12')
+    sw, variants = discr_switches(ef, VAL)
+    content, identity = set(), set()
+    if not sw:
+        raise Broken('C12', 'anchor', 'PartialEq for Value: match on the kind not found')
+    first = sw[0]
+    dom = ef.dominators()
+    for v in variants:
+        tb = first[1].get(v)
+        if tb is None:
+            continue
+        arm = None
+        for (bi, cs, oth, _) in sw[1:]:
+            if bi in ef.reachable_blocks(tb) and v in cs:
+                arm = cs[v]
+        if arm is None:
+            continue
+        blocks = {b for b in ef.normal_blocks() if arm in dom.get(b, ())}
+        calls = [callee_name(ef.blocks[b]['t']) or '' for b in blocks if ef.blocks[b]['t']['t'] == 'call']
+        gc_eq = [n for n in calls if 'memory::Gc<' in n and 'PartialEq' in n]
+        other_eq = [n for n in calls if n not in gc_eq and ('PartialEq' in n or n.endswith('::eq') or n.endswith('::ne'))]
+        bins = any(s_.get('r', {}).get('rv') == 'bin' and s_['r']['op'] in ('Eq', 'Ne') for b in blocks for s_ in ef.blocks[b]['s'])
+        if gc_eq and not other_eq and not bins:
+            identity.add(v)
+        elif other_eq or bins or calls:
+            content.add(v)          # contents decide (also when identity is tried first as a shortcut)
+    return content, identity
+
+
+def h12(rep, w):
+    """equal keys hash alike, kind by kind: a kind that `==` compares by content (numbers, tuples - and ranges, should they ever be compared by
+    their bounds) must not be hashed by the address of its object, anywhere a hash is computed (Hash for Value, the tuple's own Hash, helpers they
+    call). Identity on both sides, or content on the hash side only, is fine: equal keys still hash alike."""
+    r = rep.rule('H12', 'no kind that == compares by content is hashed by the address of its object', floor=1)
+    content, identity = _eq_by_content(w)
+    r.note('compared by content: %s; by identity: %s' % (sorted(content), sorted(identity)))
+    hf = 'yarel::<value::Value as std::hash::Hash>::hash'
+    w.require_fn(hf, 'C12')
+    reach = {x for x in w.reach_from({hf}) if x in w.fns and w.fns[x].crate is w.yarel}
+    n = 0
+    for p_ in sorted(reach):
+        f = w.fns[p_]
+        sw, _ = discr_switches(f, VAL)
+        if not sw:
+            continue
+        dom = f.dominators()
+        for (bi, cases, oth, _) in sw:
+            for v in sorted(content):
+                tb = cases.get(v)
+                if tb is None:
+                    continue
+                n += 1
+                blocks = {b for b in f.normal_blocks() if tb in dom.get(b, ())}
+                addr = []
+                for b in blocks:
+                    for s_ in f.blocks[b]['s']:
+                        rr = s_.get('r', {})
+                        if rr.get('rv') == 'cast' and ('Expose' in rr.get('ck', '') or 'PtrToInt' in rr.get('ck', '') or 'PointerExposeAddress' in rr.get('ck', '')):
+                            addr.append('pointer-to-integer cast')
+                    t = f.blocks[b]['t']
+                    if t['t'] == 'call':
+                        nm = strip_generics(callee_name(t) or '')
+                        if nm.rsplit('::', 1)[-1] in ('as_ptr', 'addr', 'expose_addr', 'expose_provenance') or ('ptr::hash' in nm) or ('memory::Gc' in (callee_name(t) or '') and 'Hash' in (callee_name(t) or '') and v != 'ObjTuple'):
+                            addr.append(nm.rsplit('::', 1)[-1])
+                r.check(not addr, '%s / %s is hashed by content' % (p_.replace('yarel::', ''), v),
+                        'Value::%s is compared by content by == but hashed by the address of its object in %s (%s): two equal keys of that kind hash differently, so a map treats them as '
+                        'different keys' % (v, p_, sorted(set(addr))), f.loc())
+    if n == 0:
+        raise Broken('C12', 'anchor', 'no hash arm for a content-compared kind found')
+
+
+def h10(rep, w):
+    """a key is kept alive by the map whatever it is made of: the tracing of tuples, ranges and maps is unconditional - no flag computed when the
+    object was built ("this tuple holds only leaves") decides whether its elements are followed."""
+    import c01
+    r = rep.rule('H10', 'the collector follows the elements of tuples / ranges / maps unconditionally (no remembered "nothing to trace" flag)', floor=4)
+    res, impls, _ = c01.audit_types(w)
+    for x in res:
+        if x['adt'].rsplit('::', 1)[-1] not in ('ObjTuple', 'ObjHashMap', 'ObjRange', 'ObjVec'):
+            continue
+        for which in ('mark', 'blacken'):
+            f = w.fns[x['impl'][which]]
+            org = origins(f)
+            plain = set()
+            for bi in sorted(f.normal_blocks()):
+                t = f.blocks[bi]['t']
+                if t['t'] != 'switch' or op_place(t['d']) is None:
+                    continue
+                for q in org.get(op_place(t['d'])['l'], ()):
+                    toks = [tk for tk in q[1:] if tk != '*' and not tk.startswith('#') and not tk.startswith('@')]
+                    if q[0][0] == 'arg' and '#discr' not in q[1:] and not any(tk.startswith('@') for tk in q[1:]) and toks:
+                        plain.add('.'.join(toks))
+            r.check(not plain, '%s::%s is unconditional' % (x['adt'].rsplit('::', 1)[-1], which),
+                    '%s::%s follows its elements only under a condition on `%s`: a key (or element) reachable only through it is reclaimed while the map still holds it'
+                    % (x['adt'].rsplit('::', 1)[-1], which, ', '.join(sorted(plain))), f.loc())
+
+
+def h13(rep, w, prop='C12'):
+    """whatever a key feeds to the hasher is accepted: `write` is the one method every other entry point of std's Hasher funnels into by
+    default (write_isize, write_u8, str ...), so a hasher of the crate whose `write` panics ("only write_u64 is ever used") turns the first key
+    that hashes an integer or a byte another way into a host panic."""
+    import c02
+    r = rep.rule('H13', 'no Hasher of the crate has a `write` that diverges', floor=1)
+    n = 0
+    for p_, f in sorted(w.yarel.fns.items()):
+        if ' as std::hash::Hasher>::write' in p_ and p_.endswith('>::write'):
+            n += 1
+            r.check(not c02.diverges(f, 0), '%s accepts bytes' % p_.replace('yarel::', ''),
+                    '%s panics for every input: any key whose Hash impl reaches it (an integer hashed with isize::hash, a str) aborts the interpreter' % p_, f.loc())
+    if n == 0:
+        raise Broken(prop, 'anchor', 'no Hasher implementation found in the crate')
